@@ -26,7 +26,10 @@ PROPS = {
         "explanation": ("C18_wellformed, C18_roundtrip, C18_reader_filters (every interleaving of foreign records), C18_reader_exact (any timestamps), "
                         "C18_reader_never_panics and C18_codes_are_kernel_codes are proved about the model for all batches / streams; the model is "
                         "compared with the real writer and reader on every generated case (classes WRITE, READ), and the extracted specification "
-                        "checkers judge the real bytes and the real reader's answers (clauses C18.length/.record/.syn/.roundtrip/.reader)"),
+                        "checkers judge the real bytes and the real reader's answers (clauses C18.length/.record/.syn/.roundtrip/.reader). Composition (Pipeline.v): "
+                        "C18_concatenated_batches_decode (a stream of any number of batches reads back as their concatenation), C18_reader_returns_only_known_keys, "
+                        "C18_virtual_keyboard_sees_mapper_outputs and C18_no_stuck_keys_through_the_codec (for every loaded layout and every input byte stream, a reader of the "
+                        "virtual keyboard sees exactly the mapper's event sequence)"),
         "assumptions": [
             "little-endian target and 24-byte struct input_event with time/type/code/value at offsets 0/16/18/20 (measured by the harness on every run; the check fails if they differ)",
             "write(2) on the uinput descriptor takes the whole buffer (send ignores the returned count); a device read delivers whole records (on a pipe a short final read is zero-padded by the reader, which the model reproduces)",
@@ -39,7 +42,7 @@ PROPS = {
 PROPS["C18"] = dict(PROPS["C18"],
                     engines=["wire", "realloop"],
                     trusted=WIRE_TRUST + [
-                        "realloop engine: the real per-device loop with the real RealDriver (mio/epoll, DevInputReader, DevInputWriter) runs in a child process over pipes; every byte it writes to the virtual-keyboard pipe is compared with concat (map Wire.encode_batch sends) for the sends of the extracted mapper model on the key events Wire.decode_stream finds in the bytes written to the keyboard pipe (coq/extract/Extract_realloop.v). Trusted there: pipes in place of evdev/uinput nodes, a no-progress deadline of 6 s as the only timing element.",
+                        "realloop engine: the real per-device loop with the real RealDriver (mio/epoll, DevInputReader, DevInputWriter) runs in a child process over pipes; every byte it writes to the virtual-keyboard pipe is compared with the extracted Pipeline.device_bytes_out (= concat (map Wire.encode_batch sends) for the sends of the mapper model on the key events Wire.decode_stream finds in the bytes written to the keyboard pipe; coq/extract/Extract_realloop.v), the object of C18_virtual_keyboard_sees_mapper_outputs. Trusted there: pipes in place of evdev/uinput nodes, a no-progress deadline of 6 s as the only timing element.",
                     ],
                     rule=PROPS["C18"]["rule"] +
                     " || realloop engine: seeded key histories of 20-400 events on fixed, random and builtin layouts (no Special repeat), written as record "
